@@ -438,6 +438,13 @@ def check(fx, rep, tier):
     from .. import core as _core
 
     _core.import_rules(rep, fx, "C08", "R11.1", only_rules=("R08.3",), floor=5, what="thread-retirement obligations (C08 R08.3) behind 'no channel between threads'")
+    # a hash belongs to the mapping of ITS slot word only: the mapping lifter accepts exactly keccak(key ++ slot) (shared with C05)
+    from .c05 import check_mapping_shape
+
+    check_mapping_shape(fx, rep, "R11.5")
+    # the gas a fragment has used when it starts depends on how much other code the dispatcher put in front of it; that is
+    # harmless only while running out of gas is an error of the whole analysis, never a silently shorter path (C17 R17.6)
+    _core.import_rules(rep, fx, "C17", "R11.1", only_rules=("R17.6",), floor=2, what="gas-exhaustion obligations (C17 R17.6) behind 'other code cannot silently truncate a fragment'", key_filter=lambda k: "gas-" in k)
     # evidence of an earlier run must not take part in the next one (shared with C05 R05.7)
     from .c05 import check_fresh_run
 
